@@ -284,7 +284,8 @@ def finishCase (s : SSt) (rline : String) : SSt := Id.run do
       if v != ref then s := s.report "spec" "C11" "chosen-move-value" s!"move={bm} value={v} negamax={ref}"
     | none => pure ()
     -- the same reference over the independent rules spec, while the budget lasts (it is slow)
-    if c.depth ≤ 2 && s.specBudget > 0 then
+    let men := (List.range 64).foldl (fun n sq => if (sn.pos.at sq).isSome then n + 1 else n) 0
+    if c.depth ≤ 2 && men ≤ 14 && s.specBudget > 0 then
       let sref := specRootValue sn c.depth
       s := { s with specBudget := s.specBudget - 1, stats := { s.stats with specNegamaxChecks := s.stats.specNegamaxChecks + 1 } }
       if sref != implScore then
